@@ -442,7 +442,15 @@ EvalSplat(e, env) ==
           ELSE IF ~a.known THEN RErrAny
           ELSE IF sv.k = "tup" THEN R(Tup(a.vs), a.err)
           ELSE IF Len(a.vs) = 0 THEN
-               (IF e.sub[2].k = "anon" THEN R(List(sv.ty, <<>>), FALSE) ELSE ROom)
+               \* an empty list or set: the element type of the result is the type the traversal gives
+               \* for an (unknown) element of the source's element type; a traversal that is invalid
+               \* for that type is an error even though there is no element
+               (IF e.sub[2].k = "anon" THEN R(List(sv.ty, <<>>), FALSE)
+                ELSE LET p == SplatFold(e.sub[2], env, <<Unk(sv.ty)>>, 1, [vs |-> <<>>, err |-> FALSE, known |-> TRUE, oom |-> FALSE])
+                     IN IF p.oom THEN ROom
+                        ELSE IF p.err THEN RErrAny
+                        ELSE IF TypeOf(p.vs[1]) = OomType THEN ROom
+                        ELSE R(List(TypeOf(p.vs[1]), <<>>), FALSE))
           ELSE IF \A j \in 1..Len(a.vs) : TypeOf(a.vs[j]) = TypeOf(a.vs[1])
                THEN R(List(TypeOf(a.vs[1]), a.vs), a.err)
                ELSE RErrDyn
